@@ -142,12 +142,15 @@ class Report:
         b = tuple(bucket)
         e = self.buckets.get(b)
         if e is None:
-            self.buckets[b] = {"count": 1, "witness": witness, "detail": detail, "kind": kind}
-        else:
-            e["count"] += 1
-            # prefer structurally smaller witnesses
-            if _size(witness) < _size(e["witness"]):
-                e["witness"], e["detail"] = witness, detail
+            e = self.buckets[b] = {"count": 0, "witness": witness, "detail": detail, "kind": kind, "alts": {}}
+        e["count"] += 1
+        a = e["alts"].get(kind)
+        if a is None or _size(witness) < _size(a[0]):      # per kind, keep the structurally smallest witness
+            e["alts"][kind] = (witness, detail)
+        # primary witness: smallest of the kind seen first ("config" preferred over "sequence"/"history")
+        pk = "config" if "config" in e["alts"] else e["kind"]
+        e["kind"] = pk
+        e["witness"], e["detail"] = e["alts"][pk]
 
     def sample(self, s, limit=8):
         if len(self.samples) < limit:
@@ -170,19 +173,33 @@ class Report:
                 continue
             nviol += 1
             w, detail = e["witness"], e["detail"]
+            kind = e["kind"]
             if shrink_fn is not None:
                 try:
                     sh = shrink_fn(b, w)
+                    if sh is None and kind == "config" and "sequence" in e["alts"]:
+                        # the single config does not reproduce alone: use the ordered sequence that does
+                        w, detail = e["alts"]["sequence"]
+                        kind = "sequence"
+                        sh = shrink_fn(b, w)
                     if sh is not None:
                         w, detail = sh
-                    else:
+                        kind = "sequence" if isinstance(w, dict) and "sequence" in w else ("config" if isinstance(w, dict) and "cls" in w else kind)
+                    elif kind != "sequence":
                         detail = detail + " [witness not minimised: not reproducible in isolation or no shrinker - if the replay passes, the violation depends on what ran before in the same process]"
                 except Exception:
                     sys.stderr.write("shrinker failed (witness kept unshrunk):\n" + traceback.format_exc())
+            e["kind"] = kind
             path = self._write_replay(b, w, detail, e["kind"])
             print("VIOLATION property=%s replay=%s" % (self.prop, path))
             print("  bucket=%s cases=%d" % ("/".join(map(str, b)), e["count"]))
-            print("  witness: %s" % (C.describe(w) if e["kind"] == "config" and isinstance(w, dict) and "cls" in w else json.dumps(w)[:300]))
+            if isinstance(w, dict) and "sequence" in w and all(isinstance(c, dict) and "cls" in c for c in w["sequence"]):
+                wtxt = "in one process: " + " ; then ".join(C.describe(c) for c in w["sequence"])
+            elif e["kind"] == "config" and isinstance(w, dict) and "cls" in w:
+                wtxt = C.describe(w)
+            else:
+                wtxt = json.dumps(w)[:300]
+            print("  witness: %s" % wtxt)
             print("  detail: %s" % detail)
         for ln in lines:
             print(ln)
